@@ -1,4 +1,5 @@
 import EzdxfVerif.Model.Heap
+import EzdxfVerif.Model.HeapRecipe
 import Drivers.Proto
 open EzdxfVerif.Heap Proto
 
@@ -12,7 +13,13 @@ open EzdxfVerif.Heap Proto
   copy|<cls>=<policy letters>,...|<cls>=<blank part trees>;...|<tree>   ->  tree of the model copy
     policy letters: d deepcopy, a alias, s shallow, r reset, i init (value of a default instance), e strategy copy
     input tree tokens (space separated):  v<int>  n<addr>  <i|c|k><addr>[ ... ]  e<cls>@<addr>[ ... ]
-    output tokens: v<int>  n<addr>  s<addr> (the object of the source itself)  <i|c|k>[ ... ]  e<cls>[ ... ] -/
+    output tokens: v<int>  n<addr>  s<addr> (the object of the source itself)  <i|c|k>[ ... ]  e<cls>[ ... ]
+  copyp|<cls>=<ppol> <ppol> ...;...|<env tree>;...|<tree>   ->  tree of the model copy `copyTop` (program recipes)
+    pol  = d | a | e | g<i> | C( <tree> ) | E( <pol> ) | F( <pol> ... )
+    ppol = 1 <pol> | ?n <pol> <pol> | ?k<path> <pol> <pol>         (path = child indices separated by '.')
+  typed|<cls>=<ty> <ty> ...;...|<frozen addresses>|<tree>   ->  ok | ill-typed      (`wt` of Model/HeapRecipe.lean)
+    ty   = * | o | L( <ty> ) | O( <ty> ... )
+  safe|<recipe table>|<type table>   ->  true | false        (`partsSafe` class by class) -/
 
 def parseKind (s : String) : Option Kind :=
   if s = "i" then some .imm else if s = "c" then some .cell else if s = "k" then some .cont else none
@@ -132,6 +139,98 @@ partial def showA : ATree → String
   | .node _ k cs => showKind k ++ "[ " ++ " ".intercalate (cs.map showA) ++ " ]"
   | .ent _ c cs => "e" ++ toString c ++ "[ " ++ " ".intercalate (cs.map showA) ++ " ]"
 
+mutual
+  partial def parsePol : List String → Option (Pol × List String)
+    | [] => none
+    | tok :: rest =>
+      if tok = "d" then some (.deep, rest)
+      else if tok = "a" then some (.alias, rest)
+      else if tok = "e" then some (.ents, rest)
+      else if tok = "C(" then
+        match parseT rest with
+        | some (t, ")" :: rest') => some (.const t, rest')
+        | _ => none
+      else if tok = "E(" then
+        match parsePol rest with
+        | some (p, ")" :: rest') => some (.each p, rest')
+        | _ => none
+      else if tok = "F(" then
+        match parsePols rest with
+        | some (ps, rest') => some (.fields ps, rest')
+        | none => none
+      else if tok.startsWith "g" then ((tok.drop 1).toNat?).map (fun i => (.gen i, rest))
+      else none
+  partial def parsePols : List String → Option (List Pol × List String)
+    | [] => none
+    | ")" :: rest => some ([], rest)
+    | toks => do
+      let (p, rest) ← parsePol toks
+      let (ps, rest') ← parsePols rest
+      some (p :: ps, rest')
+end
+
+def parseDotted (s : String) : Option (List Nat) :=
+  if s.isEmpty then some [] else (s.splitOn ".").mapM (fun t => t.toNat?)
+
+partial def parsePPols : List String → Option (List PPol)
+  | [] => some []
+  | tok :: rest =>
+    if tok = "1" then do
+      let (p, rest') ← parsePol rest
+      let ps ← parsePPols rest'
+      some (.one p :: ps)
+    else if tok.startsWith "?" then do
+      let c ← (if tok = "?n" then some Test.notNone
+               else if tok.startsWith "?k" then (parseDotted (tok.drop 2).toString).map Test.nonEmpty else none)
+      let (p, r1) ← parsePol rest
+      let (q, r2) ← parsePol r1
+      let ps ← parsePPols r2
+      some (.cond c p q :: ps)
+    else none
+
+mutual
+  partial def parseTy : List String → Option (Ty × List String)
+    | [] => none
+    | tok :: rest =>
+      if tok = "*" then some (.any, rest)
+      else if tok = "o" then some (.ok, rest)
+      else if tok = "L(" then
+        match parseTy rest with
+        | some (t, ")" :: rest') => some (.coll t, rest')
+        | _ => none
+      else if tok = "O(" then
+        match parseTys rest with
+        | some (ts, rest') => some (.obj ts, rest')
+        | none => none
+      else none
+  partial def parseTys : List String → Option (List Ty × List String)
+    | [] => none
+    | ")" :: rest => some ([], rest)
+    | toks => do
+      let (t, rest) ← parseTy toks
+      let (ts, rest') ← parseTys rest
+      some (t :: ts, rest')
+end
+
+partial def parseTyList : List String → Option (List Ty)
+  | [] => some []
+  | toks => do
+    let (t, rest) ← parseTy toks
+    let ts ← parseTyList rest
+    some (t :: ts)
+
+def toks (s : String) : List String := (s.splitOn " ").filter (· ≠ "")
+
+def parseTable {α : Type} (s : String) (f : List String → Option (List α)) : Option (List (Nat × List α)) :=
+  if s.isEmpty then some [] else
+  (s.splitOn ";").mapM (fun item =>
+    match item.splitOn "=" with
+    | [k, v] => do some ((← k.trimAscii.toString.toNat?), (← f (toks v)))
+    | _ => none)
+
+def parseEnv (s : String) : Option (List ATree) :=
+  if s.isEmpty then some [] else (s.splitOn ";").mapM parseTree
+
 def step (line : String) : String :=
   match line.splitOn "|" with
   | ["run", hp, ra, rb, fr, who, ws, depth] =>
@@ -146,6 +245,18 @@ def step (line : String) : String :=
     match parseAssoc rcs "," (fun v => v.toList.mapM parsePolicy), parseAssoc bls ";" parseTrees, parseTree tr with
     | some rc, some bl, some t => showA (copyT (lookupD rc []) (lookupD bl []) t)
     | _, _, _ => "bad-op parse"
+  | ["copyp", rcs, envs, tr] =>
+    match parseTable rcs parsePPols, parseEnv envs, parseTree tr with
+    | some rc, some env, some t => showA (copyTop (lookupL rc) (fun i => env.getD i (.leaf NONE)) t)
+    | _, _, _ => "bad-op parse"
+  | ["typed", tys, fr, tr] =>
+    match parseTable tys parseTyList, parseNats fr, parseTree tr with
+    | some cty, some fro, some t => if wt fro (lookupL cty) t then "ok" else "ill-typed"
+    | _, _, _ => "bad-op parse"
+  | ["safe", rcs, tys] =>
+    match parseTable rcs parsePPols, parseTable tys parseTyList with
+    | some rc, some cty => toString (tableSafe rc cty)
+    | _, _ => "bad-op parse"
   | _ => "bad-op"
 
 def main : IO Unit := Proto.run step
